@@ -261,27 +261,26 @@ fn encoding_rank(qv: &QualityItem<Preference<Encoding>>) -> u8 {
 }
 
 /// Returns true if "identity" is an acceptable encoding.
-///
-/// Internal algorithm relies on item list being in descending order of quality.
 fn is_identity_acceptable(items: &'_ [QualityItem<Preference<Encoding>>]) -> bool {
     if items.is_empty() {
         return true;
     }
 
-    // Loop algorithm depends on items being sorted in descending order of quality. As such, it
-    // is sufficient to return (q > 0) when reaching either an "identity" or "*" item.
-    for q in items {
-        match (q.quality, &q.item) {
-            // occurrence of "identity;q=n"; return true if quality is non-zero
-            (q, Preference::Specific(Encoding::Known(ContentEncoding::Identity))) => {
-                return q > Quality::ZERO
-            }
+    // A specific "identity;q=n" entry decides, whatever the quality of a "*" entry (RFC 7231
+    // §5.3.4: "*;q=0" excludes identity only "without a more specific entry for identity", and
+    // likewise "*;q=1" cannot re-admit an identity that is excluded by name).
+    if let Some(q) = items.iter().find(|q| {
+        matches!(
+            q.item,
+            Preference::Specific(Encoding::Known(ContentEncoding::Identity))
+        )
+    }) {
+        return q.quality > Quality::ZERO;
+    }
 
-            // occurrence of "*;q=n"; return true if quality is non-zero
-            (q, Preference::Any) => return q > Quality::ZERO,
-
-            _ => {}
-        }
+    // otherwise an occurrence of "*;q=n" decides
+    if let Some(q) = items.iter().find(|q| matches!(q.item, Preference::Any)) {
+        return q.quality > Quality::ZERO;
     }
 
     // implicit acceptable identity
